@@ -92,7 +92,13 @@ TOp ==
   /\ kind' = "op"
   /\ UNCHANGED <<T, TD, valid, sameas, alltx>>
 
-TNext == TTree \/ TRun \/ TOp
+\* the repository's block builder crashed while assembling a valid chain (recorded by the driver)
+TGenFail ==
+  /\ Is("genfail")
+  /\ kind' = "genfail"
+  /\ UNCHANGED <<T, TD, valid, sameas, alltx, results, O, Oprev, given, rewound, light, lastop>>
+
+TNext == TTree \/ TRun \/ TOp \/ TGenFail
 TSpec == TInit /\ [][TNext]_tvars
 
 AtRest == kind \in {"run", "op"}
@@ -110,6 +116,9 @@ NothingAboveHeadT == AtRest => NothingAboveHead(T, O)
 RetrievableT == AtRest => Retrievable(T, O)
 LookupT == AtRest => LookupIffCanonical(T, O, alltx)
 HeadsKnownT == AtRest => O.head \in DOMAIN T.num /\ O.hhead \in DOMAIN T.num
+
+\* building a valid chain with the node's own block builder (GenerateChain / ApplyTransaction / StateDB.Commit) must not crash
+GeneratorOKT == kind # "genfail"
 
 \* no API call may crash the node (C01 import paths, C03 rewinds and header imports)
 NoPanicT == kind = "op" => lastop.err # "PANIC"
